@@ -327,7 +327,7 @@ func c12Run(cc *c12Case, sampleOffsets func(n int, boundaries []int) []int) ([]s
 }
 
 func TestC12(t *testing.T) {
-	col := stats.New("C12", "generated rule sets (pairwise distinct saliences, write->read dependencies, descriptions, int32-limit saliences) with 2-3 fact states. (a) store -> load -> store -> load: name, version, rule names, descriptions, saliences equal; instances of the loaded and twice-loaded knowledge base validate against fresh single-rule truth and the reference replay, and fire the same sequence with the same final facts as the original; (b) truncation: the stream is cut at every field boundary (recorded from the loader's own Read calls on the complete stream) plus a drawn sample of other offsets - every offset in the thorough tier - and each prefix must make Load return an error or yield a knowledge base that passes the same comparison; (c) the store writer fails at every write-call index (all indices); (d) overwrite=false on an existing entry: error, entry pointer-identical and behaviourally unchanged. Non-trivial: the rule set's run on the first fact state needs an invalidation (>= 2 cycles and a truth flip). Distinct by rule text + facts.",
+	col := stats.New("C12", "generated rule sets (pairwise distinct saliences, write->read dependencies, descriptions, int32-limit saliences) with 2-3 fact states. (a) store -> load -> store -> load: name, version, rule names, descriptions, saliences equal; instances of the loaded and twice-loaded knowledge base validate against fresh single-rule truth and the reference replay, and fire the same sequence with the same final facts as the original; (b) truncation: the stream is cut at every field boundary (recorded from the loader's own Read calls on the complete stream) plus a drawn sample of other offsets - every offset in the thorough tier - and each prefix must make Load return an error or yield a knowledge base that passes the same comparison; (c) the store writer fails at every write-call index (all indices); (d) overwrite=false on an existing entry: error, entry pointer-identical and behaviourally unchanged; (e) clock family: small rule sets that stamp a fact with Now() are executed 2-3 times on one instance of the stored / loaded / twice-loaded knowledge base, with and without Forget(\"Now()\"): every call's stamp must not lie before that call started. Non-trivial: the rule set's run on the first fact state needs an invalidation (>= 2 cycles and a truth flip). Distinct by rule text + facts.",
 		"crash points are enumerated per generated rule set; the rule sets themselves are sampled")
 	defer col.Flush()
 	rc := fullRuleCfg()
@@ -384,12 +384,30 @@ func TestC12(t *testing.T) {
 			rt.Fatalf("C12 violated: %s (replay %s)", msg, path)
 		}
 	})
+	c12ClockFamily(t, col)
 	col.Extra("truncation_exhaustive_per_case", stats.Thorough())
 	col.Extra("failing_write_enumeration_exhaustive_per_case", true)
 }
 
 func init() {
 	replayers["C12"] = func(raw json.RawMessage) error {
+		var fam struct {
+			Family string `json:"family"`
+		}
+		if json.Unmarshal(raw, &fam) == nil && fam.Family == "clock" {
+			var ck c12ClockCase
+			if err := json.Unmarshal(raw, &ck); err != nil {
+				return err
+			}
+			v, err := c12ClockRun(&ck)
+			if err != nil {
+				return err
+			}
+			if len(v) > 0 {
+				return fmt.Errorf("%s", strings.Join(v, "; "))
+			}
+			return nil
+		}
 		var cc c12Case
 		if err := json.Unmarshal(raw, &cc); err != nil {
 			return err
